@@ -161,6 +161,10 @@ pub mod rq {
         std::mem::forget(conn);
         kani::cover!(true, "reached end");
     });
+}
+/// Out of reach on this machine (out of memory with jobs = 1); kept for documentation.
+pub mod rx {
+    use super::*;
     kproof!(ret_new_caller_old_impl, 6, {
         let (a, b): (u8, u8) = (kani::any(), kani::any());
         unsafe { RET8 = (0, a, b); }
